@@ -11,6 +11,24 @@ PAGE = "SPECIFICATION Spec\nCONSTANTS\n MaxPerEpoch = {m}\n NEpochs = {n}\n MapO
 WIN = "SPECIFICATION Spec\nCONSTANTS\n L = 3\n MaxPerEpoch = {m}\n CheckBefore = {cb}\nINVARIANT Sound\nINVARIANT Exact\nINVARIANT Emit\nCHECK_DEADLOCK FALSE\n"
 
 
+def busy_slots_case():
+    """three epochs in which account 1 has several transactions in the same slot and more than a dozen entries per epoch:
+    the order inside a slot is part of the newest-first order, and long responses leave the small-input regime of sorts"""
+    arch, sig = [], 0
+    for e in (3, 4, 6):
+        blocks, slot, parent = [], 432000 * e + 7, 432000 * e - 1
+        for b in range(4):
+            txs = []
+            for k in range(5):
+                sig += 1
+                txs.append({"sig": sig, "accts": [1, 2] if k % 4 else [2, 3], "loaded": [], "vote": False, "failed": False, "nometa": False,
+                            "dframes": 1, "mframes": 1, "pad": 0, "mpad": 0})
+            blocks.append({"slot": slot, "parent": parent, "blocktime": 1600000000 + b, "height": 50 + b, "entries": [{"txs": txs[:3]}, {"txs": txs[3:]}], "rframes": 0})
+            parent, slot = slot, slot + 3
+        arch.append({"epoch": e, "blocks": blocks})
+    return {"arch": arch}
+
+
 def run(ctx):
     q = ctx.quick
     pm = ["GsfaPagingAbs", "GsfaPaging"]
@@ -41,6 +59,7 @@ def run(ctx):
             keys = keys[:24]
         win_cases = [c for k in keys for c in groups[k]]
         arch_cases = gen_archives(ctx, 3 if q else 20, name="Gen_Ledger_gsfa", eps="{1, 2, 5}", me=3, mine=2, mintx=8, depth=150)
+        arch_cases.append(busy_slots_case())
     reader_cases = page_cases + page3 + win_cases
     obs = []
     if reader_cases:
